@@ -101,11 +101,18 @@ func (f *Func) String() string {
 
 // Type returns the type of the function.
 func (f *Func) Type() types.Type {
-	// Cache type if not present (or computed before the address space was
-	// set).
-	if f.Typ == nil || f.Typ.AddrSpace != f.AddrSpace {
+	// Cache type if not present.
+	if f.Typ == nil {
 		f.Typ = types.NewPointer(f.Sig)
 		f.Typ.AddrSpace = f.AddrSpace
+	}
+	if f.Typ.AddrSpace != f.AddrSpace {
+		// The type was cached before the address space was set. The cache is
+		// not rewritten here, as other goroutines may be printing (and thus
+		// reading it) at the same time; the type is computed afresh instead.
+		typ := types.NewPointer(f.Sig)
+		typ.AddrSpace = f.AddrSpace
+		return typ
 	}
 	return f.Typ
 }
